@@ -572,7 +572,97 @@ def rule_discr_sign(ck):
     ck.ob("table.discr_sign", "parse_rust_enum/lookup-agrees-with-sign-extended-keys", (sd and alias) or (ud and not sd and False) or (not sd and not ud), f"{len(gets)} lookups, sign-extending casts present: {sorted(need & casts)}" + ("" if alias else ": an unsigned tag with the top bit set never matches its sign-extended key, the variant is not shown"), f.loc(), what="a data-carrying enum whose unsigned tag value has the top bit set (>= 128 in a u8 tag) is shown without its variant")
 
 
+BT = "debugger::variable::value::specialization::btree"
+
+
+def _edge_indexes(f):
+    """[(block, index expression, in_loop)] for every read of `.edges[i]` in f"""
+    out = []
+    for i, j, pl, rv, sp in f.assigns():
+        if rv["r"] != "use":
+            continue
+        p = op_place(rv["op"])
+        if not p or ".edges" not in p:
+            continue
+        ix = [x for x in p if isinstance(x, str) and x.startswith("[_")]
+        if not ix:
+            continue
+        loc = int(ix[0][2:-1])
+        out.append((i, _value_at(f, loc, i, j), i in f.after(i)))
+    return out
+
+
+def _value_at(f, local, block, stmt_idx, depth=6):
+    """the value(s) of a mutable local at a program point: reaching definitions, followed through plain copies"""
+    vals = []
+    for db, d in reaching_defs(f, local, block, stmt_idx):
+        if isinstance(d, dict) and d["r"] == "use" and d["op"].get("k") in ("copy", "move") and len(op_place(d["op"])) == 1 and depth > 0:
+            src = op_place(d["op"])[0]
+            k = next((k for k, st in enumerate(f.blocks[db]["stmts"]) if st["s"] == "assign" and st["p"] == [local] and st["rv"] is d), len(f.blocks[db]["stmts"]))
+            v = _value_at(f, src, db, k, depth - 1)
+            vals.extend(v[1] if v[0] == "multi" else [v])
+        elif isinstance(d, dict) and d["r"] == "use" and op_const(d["op"]) is not None:
+            vals.append(("const", op_const(d["op"])))
+        elif isinstance(d, dict):
+            from bsrules.lib import place_expr
+            if d["r"] == "use" and d["op"].get("k") in ("copy", "move"):
+                vals.append(place_expr(f, d["op"]["p"], 8, set()))
+            elif d["r"] == "bin":
+                vals.append(("bin", d["op"], expr_of(f, d["a"], depth=6), expr_of(f, d["b"], depth=6)))
+            elif d["r"] == "cast":
+                vals.append(("cast", d.get("ty"), expr_of(f, d["op"], depth=6)))
+            else:
+                vals.append(("unknown",))
+        else:
+            vals.append(("call", d.name, [], d))
+    uniq = []
+    for v in vals:
+        if v not in uniq:
+            uniq.append(v)
+    if not uniq:
+        return expr_of(f, local, depth=8)
+    return uniq[0] if len(uniq) == 1 else ("multi", uniq)
+
+
+def rule_btree_walk(ck):
+    """in-order successor in a B-tree: one step right, then leftmost all the way down"""
+    prog = ck.prog
+    ck.rule("table.btree_walk", "BTreeMap/BTreeSet walk: after the key-value i of an internal node the successor is reached through edges[i+1] and then through edges[0] at every further level (the descent loop indexes with the constant 0), the handle on the reached leaf starts at index 0; in a leaf the successor is index+1; the first element is reached through edges[0] all the way; ascending continues at the parent's parent_idx")
+    nl = ck.anchor(BT + "::Handle::next_leaf_edge")
+    ed = _edge_indexes(nl)
+    first = [e for b, e, lp in ed if not lp]
+    inloop = [e for b, e, lp in ed if lp]
+    ck.ob("table.btree_walk", "next_leaf_edge/one-step-right", len(first) == 1 and expr_str(first[0], 6).replace(" ", "").startswith("AddWithOverflow(arg1.idx,1)"), f"first descent through edges[{expr_str(first[0], 6) if first else '?'}]", nl.loc(), what="the in-order successor of key i is not looked for under edges[i+1]")
+    def is_zero(e):
+        return e == ("const", 0) or (e[0] == "multi" and all(x == ("const", 0) for x in e[1]))
+    ck.ob("table.btree_walk", "next_leaf_edge/then-leftmost-at-every-level", len(inloop) == 1 and is_zero(inloop[0]), f"descent loop goes through edges[{expr_str(inloop[0], 6) if inloop else '?'}]", nl.loc(), what="below the first level the walk does not follow the leftmost edge: whole subtrees of a tree of height >= 2 are skipped")
+    # handles built: leaf case idx+1, descended case 0
+    aggs = [(i, rv) for i, j, pl, rv, sp in nl.assigns() if rv["r"] == "agg" and rv["name"] == BT + "::Handle"]
+    idxs = []
+    for i, rv in aggs:
+        flds = dict(zip(rv.get("fields", []), rv["ops"]))
+        idxs.append(expr_of(nl, flds["idx"], depth=8))
+    leaf_ok = any(expr_str(e, 6).replace(" ", "").startswith("AddWithOverflow(arg1.idx,1)") for e in idxs)
+    # (the index of the descended handle is a mutable local: the zero definition must be among those reaching it)
+    desc_ok = any(is_zero(e) or (e[0] == "multi" and ("const", 0) in e[1]) for e in idxs)
+    ck.ob("table.btree_walk", "next_leaf_edge/handles=(leaf:idx+1, descended:0)", len(aggs) == 2 and leaf_ok and desc_ok, f"{[expr_str(e, 5) for e in idxs]}", nl.loc())
+    fl = ck.anchor(BT + "::Handle::first_leaf_edge")
+    ed = _edge_indexes(fl)
+    ck.ob("table.btree_walk", "first_leaf_edge/leftmost", len(ed) == 1 and is_zero(ed[0][1]), f"{[expr_str(e, 5) for _, e, _ in ed]}", fl.loc())
+    ta = ck.anchor(BT + "::Handle::try_ascend")
+    aggs = [(i, rv) for i, j, pl, rv, sp in ta.assigns() if rv["r"] == "agg" and rv["name"] == BT + "::Handle"]
+    ok = False
+    if len(aggs) == 1:
+        flds = dict(zip(aggs[0][1].get("fields", []), aggs[0][1]["ops"]))
+        ok = "parent_idx" in expr_str(expr_of(ta, flds["idx"], depth=8), 8)
+    ck.ob("table.btree_walk", "try_ascend/continues-at-parent_idx", ok, "", ta.loc())
+    rk = ck.anchor(BT + "::Handle::is_right_kv")
+    ok = any(rv["r"] == "bin" and rv["op"] == "Lt" for i, j, pl, rv, sp in rk.assigns())
+    ck.ob("table.btree_walk", "is_right_kv/idx<len", ok, "", rk.loc())
+
+
 def run(ck):
+    rule_btree_walk(ck)
     rule_discr_sign(ck)
     rule_hashbrown(ck)
     rule_vecdeque(ck)
